@@ -1,8 +1,8 @@
 #!/bin/bash
-# confirmseeds.sh Cxx  -- coordinator's own confirmation of the two seeded changes of /tmp/seed/Cxx:
+# confirmseeds.sh Cxx  -- coordinator's own confirmation of the two seeded changes of ${SEEDROOT:-/tmp/seed}/Cxx:
 # with the patch: workspace compiles, the 564 tests pass, the demonstration fails; without: the demonstration passes.
 P=$1
-cd /tmp/seed/$P || exit 2
+cd ${SEEDROOT:-/tmp/seed}/$P || exit 2
 export CARGO_NET_OFFLINE=true
 git checkout -q -- . 2>/dev/null
 for N in 1 2; do
